@@ -160,7 +160,10 @@ def check(prop, tier, seed):
                 mismatches.append(c)
         if getattr(spec, 'xcheck', None):
             # extraction cross-check: the kernel's vm_compute must agree with the extracted OCaml
-            xr = spec.xcheck(lines, model, 40 if tier == 'quick' else 400)
+            try:
+                xr = spec.xcheck(lines, model, 40 if tier == 'quick' else 400, impl_kvs=impl, verdicts=verdict, prop=prop)
+            except TypeError:
+                xr = spec.xcheck(lines, model, 40 if tier == 'quick' else 400)
             stats['extraction_crosscheck'] = {'cases_evaluated_inside_coq': xr['cases'], 'agree': xr['ok']}
             if not xr['ok']:
                 proof['problems'].append('extraction cross-check failed: ' + xr['log'])
